@@ -80,6 +80,9 @@ struct Net {
     std::multimap<std::pair<uint64_t, uint64_t>, std::function<void()>> events; uint64_t evSeq = 0;
     int pendingPair[2] = {-1, -1};
     std::vector<std::pair<int, int>> pendingPipes;
+    bool inIpcCreate = false; int ipcListenFd = -1; // IPC_TCP_SOCKET helpers (external_acl_type)
+    struct TcpHelper { std::string name, token; int pid = 0; int port = 0; bool armed = false; } tcpHelper;
+    Proc *makeHelperProc(Conn *c, const std::string &name, const std::string &token, int pid);
     int nextEphemeral = 40000; int nextPid = 5000;
     uint64_t clientsDoneAt = 0; bool clientsDone = false;
     Addr squidIp;
